@@ -279,3 +279,40 @@ func TestWaitGroupReusePanicsLikeGo(t *testing.T) {
 		t.Fatalf("Add after Wait returned must be fine: %v", f)
 	}
 }
+
+func TestAfterFuncRunsAsATaskOnTheFakeClock(t *testing.T) {
+	f := search(t, 300, simrt.Config{StallMenu: []time.Duration{time.Millisecond}}, func(s *simrt.Sim) {
+		start := time.Now()
+		var mu simsync.Mutex
+		fired, stoppedFired := 0, 0
+		s.Go("arm", func() {
+			simrt.AfterFunc(10*time.Millisecond, func() {
+				mu.Lock() // the callback is a task: it can block on simulated locks like any other
+				fired++
+				if time.Since(start) < 10*time.Millisecond {
+					s.Fail("clock", "early", "fired after %v", time.Since(start))
+				}
+				mu.Unlock()
+			})
+			tm := simrt.AfterFunc(20*time.Millisecond, func() { stoppedFired++ })
+			if !simrt.TimerStop(tm) {
+				s.Fail("stop", "inactive", "Stop of a pending timer returned false")
+			}
+		})
+		s.Go("other", func() {
+			mu.Lock()
+			simrt.Yield()
+			mu.Unlock()
+		})
+		// the pending timer keeps the run alive: Quiesce returns only after it has fired and its callback has finished
+		if left := s.Quiesce(); len(left) > 0 {
+			s.Fail("deadlock", "afterfunc", "%v", left)
+		}
+		if fired != 1 || stoppedFired != 0 {
+			s.Fail("afterfunc", "count", "fired=%d stoppedFired=%d", fired, stoppedFired)
+		}
+	})
+	if len(f) != 0 {
+		t.Fatalf("AfterFunc model: %v", f)
+	}
+}
